@@ -337,6 +337,13 @@ func (e *SpecEnv) eval(x Expr) TV {
 		return n.eval(x.Body)
 	case *EUn:
 		if x.Op == "&" {
+			if id, ok := x.X.(*EIdent); ok && e.Locals != nil {
+				if _, shadow := e.Vars[id.Name]; !shadow {
+					if l := e.Locals(id.Name); l != nil && (l.Kind == LocObj || l.Kind == LocBox) && len(l.Path) == 0 {
+						return TV{T: l.Ref, Loc: l, Ty: types.NewPointer(l.Ty), Sort: "Int"}
+					}
+				}
+			}
 			l, ty := e.addr(x.X)
 			return TV{Loc: l, Ty: types.NewPointer(ty), Sort: "Int"}
 		}
